@@ -418,6 +418,14 @@ pub fn run_typer() {
                     Err(e) => format!("err{}", e.code()),
                 }
             }
+            // fixwf <context 0..3> <extern 0|1> <type>: is the fixed type well-formed?
+            "fixwf" => {
+                let ty = P { s: w[3].as_bytes(), i: 0 }.cty();
+                match h::fix_type_for_flags(ty, w[1].parse().unwrap(), w[2] == "1") {
+                    Ok(t) => format!("ok {} {}", cwire(&t), if t.is_wellformed() { "wellformed" } else { "illformed" }),
+                    Err(e) => format!("err{}", e.code()),
+                }
+            }
             // align <structural type> <member type>*
             "align" => {
                 let st = P { s: w[1].as_bytes(), i: 0 }.cty();
@@ -495,6 +503,21 @@ pub fn run_containers() {
                     Err(None) => "poisoned".to_string(),
                 };
                 format!("{} | {}", res, show(&out))
+            }
+            // declare <kind 0..5> <name> <next id> <containers name:id:s,..|-> <layers name:id,../..> <functions name:id,..|->
+            "declare" => {
+                let pairs = |t: &str| -> Vec<(String, u32)> {
+                    if t == "-" { Vec::new() } else {
+                        t.split(',').map(|e| { let f: Vec<&str> = e.split(':').collect(); (format!("n{}", f[0]), f[1].parse().unwrap()) }).collect()
+                    }
+                };
+                let cs: Vec<(String, u32, bool)> = if w[4] == "-" { Vec::new() } else {
+                    w[4].split(',').map(|e| { let f: Vec<&str> = e.split(':').collect(); (format!("n{}", f[0]), f[1].parse().unwrap(), f[2] == "1") }).collect()
+                };
+                let layers: Vec<Vec<(String, u32)>> = w[5].split('/').map(|l| pairs(l)).collect();
+                let (res, dump) = h::declare_step(&cs, &layers, &pairs(&w[6]), w[3].parse().unwrap(), w[1].parse().unwrap(), &format!("n{}", w[2]));
+                let res = match res { Ok(id) => format!("ok{}", id), Err(e) => format!("err{}", e.code()) };
+                format!("{} | {}", res, dump)
             }
             o => panic!("unknown request {o}"),
         });
